@@ -4,11 +4,13 @@ from harness.gen.sessions import gen_case, SidCounter
 
 THEOREM_NOTE = ("Props/C07.lean: the classification table from input()'s result to the action; the act step does exactly one thing per action (nothing / one render request / "
                 "close the top screen / quit or the quit dialog branch / re-issue the prompt, or one render request on every fifth consecutive rejection); the rejection "
-                "counter is per screen, +1 on rejection, reset by any accepted line and by a None prompt; an exception in input() is contained")
+                "counter is per screen, +1 on rejection, reset by any accepted line and by a None prompt; an exception in input() is contained"
+                " Props/C07b.lean: the return value and remembered state of the library's own dialogs, line by line and over sequences.")
 ASSUMPTIONS = ASSUME_SESSION
 RULE = ("sessions over stacks of 1..3 plain screens whose input() scripts only return values (the four states, the global keys r/c/q, other strings, None; no actions), with and "
         "without a quit dialog answering yes / no / garbage / None / having no answer attribute, sequences of 4, 5, 10 rejections, alternating screens; oracle: an independent "
-        "reference interpreter of the property predicts the whole callback sequence; plus generic tame sessions compared with the model; non-trivial = >= 3 lines handled")
+        "reference interpreter of the property predicts the whole callback sequence; plus generic tame sessions compared with the model; non-trivial = >= 3 lines handled"
+        " Later rounds: a modal question asked before run(); the library's own dialogs (YesNoDialog, PasswordDialog, HelpScreen, ErrorDialog, GetInputScreen with acceptance conditions) given line sequences, compared with Model/Dialogs.lean and judged line by line against their documentation.")
 
 RETS = ["PROCESSED", "REDRAW", "CLOSE", "DISCARDED", "DISCARDED", "DISCARDED", "r", "c", "q", "zz", "NONE", None]
 
